@@ -65,6 +65,18 @@ theorem comparison_preserved {w : Nat} (hw : Lemmas.Arith.Supported w) (op : Lem
 theorem conversion_preserved {w v : Nat} (a : BitVec w) : GL.mkInt v a.toNat = GL.mkInt v (a.setWidth v).toNat :=
   Lemmas.Arith.conversion_sound a
 
+/-- The functions that decide which width a conversion, a literal and `++`/`--` are emitted at
+(`integerConversion`, `getIntegerType`, `basicLiteral`, `incDecStmt`) are the committed expectation. -/
+theorem width_facts_ok : Gen.Guards.widths = Expected.Guards.widths := rfl
+
+/-- `integerConversion`'s decision — emit the operand unchanged when source and target widths are
+equal, `to_u<target>` otherwise — yields Go's conversion in both cases, for all three widths. -/
+theorem conversion_decision {ws wt : Nat} (hs : Lemmas.Arith.Supported ws) (a : BitVec ws) :
+    (if ws = wt then GL.mkInt ws a.toNat else GL.mkInt wt a.toNat) = GL.mkInt wt (a.setWidth wt).toNat := by
+  split
+  · rename_i h; subst h; simp [GL.mkInt, BitVec.toNat_setWidth]
+  · exact Lemmas.Arith.conversion_sound a
+
 example : Lemmas.Arith.goArith .sub (3 : BitVec 8) 5 = some 254 := by decide
 example : Lemmas.Arith.goArith .shl (1 : BitVec 32) 40 = some 0 := by decide
 
